@@ -152,15 +152,13 @@ Eval(n, cur, root, env) ==
                       ELSE IF v.t = "num" THEN v
                       ELSE Open
     [] n.k = "mslist" ->
-         \* a multi-select on a null current node: the corpus pins  `null`|[@]
-         \* to [null] but  null.[..]  to null; implementations differ on every
-         \* other form, so it is left open (property C17 excludes it as well)
-         IF cur = Null THEN Open
-         ELSE LET os == EvalSeq2(n.xs, cur, root, env)  g == Gather(os) IN
+         \* a multi-select is evaluated on whatever the current node is, null included: the corpus pins
+         \* `null`|[@]  to [null].  That  null.[..]  is null is the sub-expression rule above, not a rule
+         \* of the multi-select (it was left open here while the two were not told apart)
+         LET os == EvalSeq2(n.xs, cur, root, env)  g == Gather(os) IN
               IF g # Null THEN g ELSE Arr(os)
     [] n.k = "mshash" ->
-         IF cur = Null THEN Open
-         ELSE LET os == EvalSeq2([i \in 1..Len(n.kvs) |-> n.kvs[i].x], cur, root, env)
+         LET os == EvalSeq2([i \in 1..Len(n.kvs) |-> n.kvs[i].x], cur, root, env)
                   g == Gather(os) IN
               IF g # Null THEN g
               ELSE Obj([i \in 1..Len(n.kvs) |-> Mem(n.kvs[i].k, os[i])])
